@@ -133,6 +133,102 @@ def run(ctx, full=False, label="rogue-server", only=None):
     ctx.notes[label] = {"scenarios": n, "completed": hits}
     if only is None:
         hits += genuine_dfs(ctx, label + "-genuine")
+        hits += rogue_content_dfs(ctx, label + "-content")
+        hits += key_release_oracle(ctx, label + "-keys")
+    return hits
+
+
+# ------------------------------------------------------------------ message CONTENT variations
+SH_VARIANTS = ["plain", "psk0", "psk1", "unknown-ext", "psk0+unknown-ext"]
+EE_VARIANTS = ["early_data", "early_data+alpn", "alpn", "unknown-ext", "empty", "early_data+unknown-ext"]
+
+
+def _vary_sh(tls, sh_bytes, variant):
+    from aioquic.buffer import Buffer
+    sh = tls.pull_server_hello(Buffer(data=sh_bytes))
+    if "psk0" in variant:
+        sh.pre_shared_key = 0
+    if "psk1" in variant:
+        sh.pre_shared_key = 1
+    if "unknown-ext" in variant:
+        sh.other_extensions = list(sh.other_extensions) + [(0xFEED, b"\x01\x02")]
+    return _ser(tls.push_server_hello, sh)
+
+
+def _vary_ee(tls, variant):
+    tp = (tls.ExtensionType.QUIC_TRANSPORT_PARAMETERS, D.SERVER_TP)
+    others = [] if variant == "empty" else [tp]
+    if "unknown-ext" in variant:
+        others.append((0xFEED, b"\x00"))
+    return _ser(tls.push_encrypted_extensions, tls.EncryptedExtensions(
+        alpn_protocol="h3" if "alpn" in variant else None, early_data="early_data" in variant, other_extensions=others))
+
+
+def rogue_content_dfs(ctx, label="rogue-server-content", only=None):
+    """Rogue server (no trusted key, no PSK) that also varies the CONTENT of
+    ServerHello (pre_shared_key 0 / 1, unknown extension) and EncryptedExtensions
+    (early_data, ALPN, unknown extension, no extension at all) for every flight
+    shape; flights are explored as a prefix tree on the real client (a refused
+    prefix refuses its extensions).  The client must never complete.
+    `only` = (offers, sh variant, ee variant, cert, flight) re-executes one case."""
+    from aioquic import tls
+    D.tap_extract()
+    POST = tls.State.CLIENT_POST_HANDSHAKE
+    rogue = _rogue_identity()
+    store = S.ticket_store()
+    victim = S.pool()[CERT]
+    total = hits = 0
+    combos = [(o, sv, ev, w) for o in (False, True) for sv in SH_VARIANTS for ev in EE_VARIANTS for w in ("rogue", "victim")]
+    if only is not None:
+        combos = [tuple(only[:4])]
+    for offers, sv, ev, which in combos:
+        frontier = [[]]
+        while frontier:
+            prefix = frontier.pop()
+            for t in (EE, CR, CERT, CV, FIN):
+                if only is not None:
+                    if t != EE:
+                        continue
+                    seq = list(only[4])
+                elif t in prefix:
+                    continue
+                else:
+                    seq = prefix + [t]
+                c = D.client(alpn=["h3"] if "alpn" in ev else None)
+                if offers:
+                    c.session_ticket = store.client[0]
+                p = D.Pair(c, D.server(ident=rogue, alpn=["h3"] if "alpn" in ev else None))
+                p.hello()
+                if p.serve() is not None:
+                    continue
+                f = D.Forger(p)
+                f.sh = _vary_sh(tls, f.sh, sv)
+                f.msgs[EE] = _vary_ee(tls, ev)
+                msgs = f.flight(seq, cr=D.minimal(CR), cert=victim if which == "victim" else None)
+                exc, _ = D.feed(c, f.sh)
+                ok = exc is None
+                if ok:
+                    for m in msgs:
+                        exc, _ = D.feed(c, m)
+                        if exc is not None:
+                            ok = False
+                            break
+                total += 1
+                ctx.count((label, offers, sv, ev, which, tuple(seq)), True)
+                if ok and c.state == POST:
+                    hits += 1
+                    ctx.witness(
+                        f"client (PSK {'offered' if offers else 'NOT offered'}, CERT_REQUIRED) reached CLIENT_POST_HANDSHAKE "
+                        f"with a server holding neither a trusted certificate key nor the PSK: ServerHello [{sv}], "
+                        f"EncryptedExtensions [{ev}], flight {seq}, certificate shown: {which}; "
+                        f"peer certificate = {c._peer_certificate!r}, session_resumed={c.session_resumed}",
+                        {"kind": "rogue-content", "offers": offers, "sh": sv, "ee": ev, "cert": which, "flight": seq,
+                         "client_hello": p.client_hello.hex(), "server_messages": [f.sh.hex()] + [m.hex() for m in msgs]},
+                        {"oracle": "completes-without-authentication", "level": "tls", "rogue": "content",
+                         "early_data_in_ee": "early_data" in ev, "psk_in_sh": "psk" in sv, "processed": seq})
+                elif ok and only is None:
+                    frontier.append(seq)
+    ctx.notes[label] = {"runs": total, "completed": hits}
     return hits
 
 
@@ -234,16 +330,109 @@ def genuine_dfs(ctx, label="genuine-server-repetitions", max_len=8, max_rep=2, o
     return hits
 
 
+# ------------------------------------------------------------------ when are traffic secrets released
+# RFC 8446 §7.1 / §4.4.4 and RFC 9001 §4.1.4 / §5.7: the message whose successful processing
+# may hand a secret to QUIC (None = while producing the ClientHello)
+CH, SH = 1, 2
+RELEASE_RULE = {
+    ("client", "ENCRYPT", "ZERO_RTT"): {None},           # from the offered PSK
+    ("client", "DECRYPT", "HANDSHAKE"): {SH},
+    ("client", "ENCRYPT", "HANDSHAKE"): {SH, EE},
+    ("client", "DECRYPT", "ONE_RTT"): {FIN},             # only once the server Finished verified
+    ("client", "ENCRYPT", "ONE_RTT"): {FIN},
+    ("server", "DECRYPT", "ZERO_RTT"): {CH},             # binder verified
+    ("server", "ENCRYPT", "HANDSHAKE"): {CH},
+    ("server", "DECRYPT", "HANDSHAKE"): {CH},
+    ("server", "ENCRYPT", "ONE_RTT"): {CH},              # 0.5-RTT data is allowed
+    ("server", "DECRYPT", "ONE_RTT"): {FIN},             # only once the CLIENT Finished verified
+}
+
+
+class _Tap:
+    """update_traffic_key_cb recorder: (role, direction, epoch, type of the message being processed,
+    TLS state at the time of the call)"""
+
+    def __init__(self, role, ctx_obj, log):
+        self.role, self.c, self.log, self.current = role, ctx_obj, log, None
+        ctx_obj.update_traffic_key_cb = self
+
+    def __call__(self, direction, epoch, cipher_suite, secret):
+        self.log.append((self.role, direction.name, epoch.name, self.current, self.c.state.name))
+
+
+def key_release_oracle(ctx, label="key-release"):
+    """honest handshakes (certificate, client-auth, resumed with 0-RTT, ticket refused), message by
+    message, plus a forged client Finished: every traffic secret must be released only while
+    processing the message that authenticates it (table above, written from the RFCs)"""
+    from aioquic import tls
+    D.tap_extract()
+    store = S.ticket_store(max_early_data=0xFFFFFFFF)
+    variants = [("certificate", lambda: D.Pair(D.client(), D.server())),
+                ("client-auth", lambda: S.full_pair(tickets=False)),
+                ("resumed-0rtt", lambda: S.resumed_pair(store)),
+                ("ticket-refused", lambda: S.resumed_pair(store, accept=False))]
+    n = hits = 0
+    for vname, mk in variants:
+        for forged_finished in (False, True):
+            p = mk()
+            log = []
+            ct, st = _Tap("client", p.c, log), _Tap("server", p.s, log)
+            exc, out = D.feed(p.c, b"")
+            queue = [("s", m) for m in D.split(out)]
+            steps = 0
+            while queue and steps < 40:
+                steps += 1
+                dst, m = queue.pop(0)
+                ctxo, tap, back = (p.s, st, "c") if dst == "s" else (p.c, ct, "s")
+                if forged_finished and dst == "s" and m[0] == FIN:
+                    m = m[:-1] + bytes([m[-1] ^ 0x01])
+                tap.current = m[0]
+                exc, out = D.feed(ctxo, m)
+                tap.current = None
+                if exc is not None:
+                    break
+                queue += [(back, x) for x in D.split(out)]
+            n += 1
+            ctx.count((label, vname, forged_finished), True)
+            for role, d, e, mtype, state in log:
+                allowed = RELEASE_RULE.get((role, d, e), set())
+                if mtype not in allowed:
+                    hits += 1
+                    rel = f"{role} {d}/{e} while processing message type {mtype} in state {state}"
+                    ctx.witness(
+                        f"{vname}{' (client Finished forged)' if forged_finished else ''}: the {role} handed the "
+                        f"{d} {e} traffic secret to QUIC while processing message type {mtype} (TLS state {state}); "
+                        f"TLS 1.3 allows it only while processing {sorted(x for x in allowed if x is not None) or 'the ClientHello build'}"
+                        f" — the secret is released before the message that authenticates it was verified",
+                        {"kind": "key-release", "variant": vname, "forged_finished": forged_finished, "release": rel,
+                         "releases": [list(x) for x in log]},
+                        {"oracle": "key-before-authentication", "role": role, "direction": d, "epoch": e, "during": mtype})
+            if forged_finished and any(r == "server" and d == "DECRYPT" and e == "ONE_RTT" for r, d, e, _, _ in log):
+                hits += 1
+                ctx.witness(f"{vname}: the server released its 1-RTT read secret although the client Finished did not verify",
+                            {"kind": "key-release", "variant": vname, "forged_finished": True, "release": "forged",
+                             "releases": [list(x) for x in log]},
+                            {"oracle": "key-before-authentication", "role": "server", "forged": True})
+    ctx.notes[label] = {"handshakes": n, "violations": hits}
+    return hits
+
+
 def replay(rep):
     """re-execute a recorded rogue / genuine-server flight on the current tree;
     returns the list of witnesses it produces again (empty = no longer failing)"""
     from . import core
     ctx = core.Ctx("replay", "quick")
-    if rep.get("kind") == "rogue":
+    if rep.get("kind") == "rogue-content":
+        rogue_content_dfs(ctx, label="replay", only=(rep["offers"], rep["sh"], rep["ee"], rep["cert"], rep["flight"]))
+    elif rep.get("kind") == "key-release":
+        key_release_oracle(ctx, label="replay")
+    elif rep.get("kind") == "rogue":
         run(ctx, label="replay", only=(rep["offers"], rep["psk"], rep["cert"], rep["flight"]))
     elif rep.get("kind") == "genuine":
         v = {"cert-rsa": "certificate", "cert-ec256": "certificate-ec256"}.get(rep["variant"], rep["variant"])
         genuine_dfs(ctx, label="replay", only=(v, rep["flight"]))
     else:
         return None
+    if rep.get("kind") == "key-release":
+        return [w for w in ctx.witnesses if w["replay"].get("release") == rep.get("release")]
     return ctx.witnesses
